@@ -43,10 +43,12 @@ SQL_SPECIAL = ["id", "pk", "ID", "Pk"]
 PUNCT_KEYS = ["q r", "foo-bar", "a.b", "it's", 'say "hi"', "back\\slash", "path/to", "$ref", "@type", "x y z",
               "first name", "e-mail", "content-type", "X-Request-Id", "a\"b", "c\\d", "tab\there", "per cent%",
               "{curly}", "[square]", "semi;colon", "co:lon", "qu?estion", "ex!clam", "a+b", "a=b", "hash#tag",
-              "new\nline", " padded ", "trail ", " lead", "pipe|d", "til~de", "back`tick", "ca^ret", "am&p", "st*ar", "(paren)", "a,b", "<tag>"]
+              "new\nline", " padded ", "trail ", " lead", "pipe|d", "til~de", "back`tick", "ca^ret", "am&p", "st*ar", "(paren)", "a,b", "<tag>",
+              "a\\nb", "C:\\temp\\new", "end\\", "x\\ty", "u\\x41z", "quote\\\"d"]
 NONASCII_KEYS = ["é", "ü", "ñame", "straße", "øre", "Æther", "café", "naïve", "Ключ", "значение", "имя",
                  "Ελληνικά", "όνομα", "Հայերեն", "ÀÉÎ", "łódź", "čeština", "šđžć", "ärger", "Größe",
-                 "données", "año", "fianç", "Über", "пользователь", "список", "αβγ", "Ωmega"]
+                 "données", "año", "fianç", "Über", "пользователь", "список", "αβγ", "Ωmega",
+                 "x½", "m²", "a—b", "col·lecció", "tm™", "ﬁle", "Ǆungla", "ŉame", "Ĳssel"]
 DIGIT_FIRST = ["1st", "2nd", "3d", "9lives", "7", "42x", "1_a", "5Star", "8ball"]
 
 
@@ -96,6 +98,16 @@ def key_status(key, unicode_both=True, allow_digit_first=False):
     return None
 
 
+def nfkc_unstable(key):
+    """finding nfkc-unstable-key-without-transliteration: a word character that Python does not keep as is in an
+    identifier (NFKC-normalised, e.g. the ligature fi, or not an identifier character at all, e.g. 1/2 or superscript 2)"""
+    import unicodedata
+    for ch in key:
+        if re.match(r"\w", ch) and (unicodedata.normalize("NFKC", ch) != ch or not ("a" + ch).isidentifier()):
+            return True
+    return False
+
+
 def class_forms(key):
     """(name before sanitising, sanitised forms) of the class derived from a key holding an object"""
     raw = inflection.camelize(inflection.singularize(inflection.underscore(key)))
@@ -114,17 +126,24 @@ def class_name_collision(keys):
     return False
 
 
+_POOL_CACHE = {}
+
+
 def key_universe(pools, min_size=1, max_size=8, allow_digit_first=False):
     """Lists of keys, pairwise fold-distinct, all in the stated domain.  Returns strategy of list[str]."""
-    pool = []
-    seen = set()
-    for p in pools:
-        for k in p:
-            if k in seen:
-                continue
-            seen.add(k)
-            if key_status(k, allow_digit_first=allow_digit_first) is None:
-                pool.append(k)
+    ck = (tuple(id(p) for p in pools), allow_digit_first)
+    pool = _POOL_CACHE.get(ck)
+    if pool is None:
+        pool = []
+        seen = set()
+        for p in pools:
+            for k in p:
+                if k in seen:
+                    continue
+                seen.add(k)
+                if key_status(k, allow_digit_first=allow_digit_first) is None:
+                    pool.append(k)
+        _POOL_CACHE[ck] = pool
     return st.lists(st.sampled_from(pool), min_size=min_size, max_size=max_size, unique_by=fold).filter(
         lambda ks: not class_name_collision(ks))
 
